@@ -585,11 +585,11 @@ class spawn(SpawnBase):
         s = self._coerce_send_string(s)
         return self.send(s + self.linesep)
 
-    def _log_control(self, s):
+    def _log_control(self, s, direction='send'):
         """Write control characters to the appropriate log files"""
         if self.encoding is not None:
             s = s.decode(self.encoding, 'replace')
-        self._log(s, 'send')
+        self._log(s, direction)
 
     def sendcontrol(self, char):
         '''Helper method that wraps send() with mnemonic access for sending control
@@ -843,7 +843,7 @@ class spawn(SpawnBase):
                     break
                 if output_filter:
                     data = output_filter(data)
-                self._log(data, 'read')
+                self._log_control(data, 'read')
                 os.write(self.STDOUT_FILENO, data)
             if self.STDIN_FILENO in r:
                 data = self.__interact_read(self.STDIN_FILENO)
@@ -855,10 +855,10 @@ class spawn(SpawnBase):
                 if i != -1:
                     data = data[:i]
                     if data:
-                        self._log(data, 'send')
+                        self._log_control(data, 'send')
                     self.__interact_writen(self.child_fd, data)
                     break
-                self._log(data, 'send')
+                self._log_control(data, 'send')
                 self.__interact_writen(self.child_fd, data)
 
 
